@@ -47,7 +47,7 @@ def bounds(tier):
 
 
 def units(tier, seed):
-    return c03.units(tier, seed)
+    return [dict(u, seed=seed) for u in c03.units(tier, seed)]
 
 
 def lincomb(a, ca, b=None, cb=0.0):
@@ -206,7 +206,7 @@ def run_unit(u):
         for ei in range(len(EXTRAS)):
             nlab = len(dsm_impl.labels(EXTRAS[ei]))
             for qi, quad in enumerate(quads):
-                if tier == "quick" and (qi + ei + li) % 3 != 0:
+                if tier == "quick" and (qi + ei + li + u.get("seed", 0)) % 3 != 0:
                     continue
                 if tier == "thorough" and ei == 2 and qi % 3 != 0:
                     continue
